@@ -120,6 +120,10 @@ def run(ctx):
             rep.ok(rule, C, f"degree {fmt(d)}: {what}")
         elif is_ground(d) or d == Z:
             rep.bad(rule, C, f"{name}: degree {fmt(d)}", f"scales with degree {fmt(d)} in the quaternion instead of {want}: {what}", f"{rel}:{fns[name].lineno}")
+        elif len({fmt(r) for r in getattr(it, "returns", {}).get(it._last_key, []) if not isinstance(r, tuple) and (is_ground(r) or r == Z)} - {fmt(Z)}) > 1:
+            degs = sorted({fmt(r) for r in it.returns[it._last_key] if not isinstance(r, tuple) and is_ground(r)})
+            rep.bad(rule, C, f"{name}: return paths of degree {', '.join(degs)}", f"under P -> s P the return paths of {name} scale with DIFFERENT degrees ({', '.join(degs)}): a special case "
+                    f"(an early return before the normalisation, a fast path) is not homogeneous of degree {fmt(want)} like the general formula ({what})", f"{rel}:{fns[name].lineno}")
         elif it.branch_conflicts:
             ifn, k, a, b = it.branch_conflicts[0]
             rep.bad(rule, C, ifn.test, f"under P -> s P the two sides of the value-dependent test `{norm_src(ifn.test)[:60]}` leave `{k}` with different scaling degrees "
@@ -373,4 +377,9 @@ MUTANTS += [
     dict(id="c01-r7-seed", canary=True, what="[seeded by sub-agent] Exp_SO3_quat_P remembers its last evaluation in a module-level dict keyed by the caller's array", file=ROT,
          edits=[(ROT, "def Exp_SO3_quat_P(P, normalize=True):\n", "_LAST = {\"P\": None, \"R\": None}\n\n\ndef Exp_SO3_quat_P(P, normalize=True):\n    if _LAST[\"P\"] is not None and np.array_equal(P, _LAST[\"P\"]):\n        return _LAST[\"R\"].copy()\n    _LAST[\"P\"] = P\n")],
          expect="C01.R7"),
+]
+
+MUTANTS += [
+    dict(id="c01-r2-earlyreturn", canary=True, what="[seeded by sub-agent] Exp_SO3_quat_P gets a fast path for p = 0 that returns before the normalisation (degree +1 instead of -1 on that path)", file=ROT,
+         old='    p_tilde = ax2skew(p)\n    p_tilde_p = ax2skew_a()\n    matrix_P = np.zeros((3, 3, 4), dtype=P.dtype)\n', new='    p_tilde_p = ax2skew_a()\n    matrix_P = np.zeros((3, 3, 4), dtype=P.dtype)\n    if not np.any(p):\n        matrix_P[:, :, 1:] = 2 * p0 * p_tilde_p\n        return matrix_P\n    p_tilde = ax2skew(p)\n', expect="C01.R2"),
 ]
